@@ -56,6 +56,32 @@ def pad(b, item_size):
     return b"\x00" * (item_size - len(b)) + bytes(b)
 
 
+class Idx:
+    """an index that is not an int but supports the index protocol (what numpy integers and friends are): lists accept it"""
+
+    def __init__(self, i):
+        self.i = i
+
+    def __index__(self):
+        return self.i
+
+
+class TooGreedy(Exception):
+    pass
+
+
+def endless(values, limit):
+    """an endless stream of values (cycled); a consumer that takes more than `limit` items -- far more than any slice of the array
+    has room for -- gets an exception instead of a hang"""
+    n = 0
+    while True:
+        for v in values:
+            n += 1
+            if n > limit:
+                raise TooGreedy("the slice assignment consumed more than %d values from its iterable" % limit)
+            yield v
+
+
 class Run:
     def __init__(self, case):
         self.case = case
@@ -130,7 +156,14 @@ class Run:
         t = op[0]
         if t == "get":
             i = op[1]
-            if -n <= i < n:
+            if len(op) > 2 and op[2] == "obj":
+                if -n <= i < n:
+                    got = a[Idx(i)]
+                    if got != m[i]:
+                        self.fail(k, "a[<index object %d>] = %r, model %r" % (i, got, m[i]), "get:index_object")
+                else:
+                    self.must_raise(k, lambda: a[Idx(i)], "get_out_of_range")
+            elif -n <= i < n:
                 got = a[i]
                 if got != m[i]:
                     self.fail(k, "a[%d] = %r, model %r" % (i, got, m[i]), "get:neg" if i < 0 else "get")
@@ -141,7 +174,7 @@ class Run:
             i, v = op[1], op[2]
             val = decode_value(v)
             if -n <= i < n and value_valid(v, self.item):
-                a[i] = val
+                a[Idx(i) if len(op) > 3 and op[3] == "obj" else i] = val
                 m[i] = pad(B(v[1]), self.item)
             else:
                 self.must_raise(k, lambda: a.__setitem__(i, val), "set_invalid")
@@ -162,6 +195,11 @@ class Run:
                 pyvals = (x for x in pyvals)
             elif op[3] == "tuple":
                 pyvals = tuple(pyvals)
+            elif op[3] == "endless" and vals:
+                # "assigns element-wise up to the shorter of slice and values": an endless stream of values fills the slice
+                pairs = [(ix, vals[j % len(vals)]) for j, ix in enumerate(idx)]
+                bad = next((j for j, (_, v) in enumerate(pairs) if not value_valid(v, self.item)), None)
+                pyvals = endless([decode_value(v) for v in vals], n + 1000)
             if bad is None:
                 a[s] = pyvals
                 for i, v in pairs:
@@ -320,14 +358,14 @@ def st_op(draw, n, item):
                               "setslice_noniter", "it_new", "it_next", "it_next", "it_next"]))
     idx = st.one_of(st.integers(-n, n - 1), st.integers(-n - 3, n + 2), st.sampled_from([-1, -n, 0, n - 1, n, -n - 1]))
     if t == "get":
-        return ["get", draw(idx)]
+        return ["get", draw(idx)] + (["obj"] if draw(st.integers(0, 4)) == 0 else [])
     if t == "set":
-        return ["set", draw(idx), draw(st_value(item))]
+        return ["set", draw(idx), draw(st_value(item))] + (["obj"] if draw(st.integers(0, 4)) == 0 else [])
     if t == "getslice":
         return ["getslice", draw(st_slice(n))]
     if t == "setslice":
         vals = draw(st.lists(st_value(item, valid_only=draw(st.booleans())), min_size=0, max_size=n + 2))
-        return ["setslice", draw(st_slice(n)), vals, draw(st.sampled_from(["list", "gen", "tuple"]))]
+        return ["setslice", draw(st_slice(n)), vals, draw(st.sampled_from(["list", "list", "gen", "tuple", "endless"]))]
     if t == "setslice_noniter":
         return ["setslice_noniter", draw(st_slice(n))]
     if t == "del":
